@@ -47,30 +47,41 @@ class Hostile(Layout):
 
     COMMENT_TEXTS = ["c", "lda #1", "x: {", "}", ".byte 1, 2", "\"quote", "* = $1000", "a /* b", "é€", "", "  ", ".if 0 {", "else"]
 
-    def __init__(self, rng, crlf=None, comments=True, case=True):
+    def __init__(self, rng, crlf=None, comments=True, case=True, multiline_block=True, else_comments=True):
         super().__init__(rng, rng.random() < 0.3 if crlf is None else crlf)
         self.comments = comments
         self.do_case = case
+        self.multiline_block = multiline_block
+        self.else_comments = else_comments
         self.stats = {}
+        self.comment_meta = {}    # id -> (gap kind, statement kind, what follows)
+        self._cid = 0
+        self._ctx = ("?", "?", "?")
+        self._after_else = False
 
     def _note(self, boundary, trivia):
         self.stats[(boundary, trivia)] = self.stats.get((boundary, trivia), 0) + 1
 
+    def _new_id(self):
+        self._cid += 1
+        self.comment_meta[self._cid] = self._ctx
+        return "c%dz " % self._cid
+
     def _block_comment(self, multiline_ok):
         rng = self.rng
-        t = rng.choice(self.COMMENT_TEXTS).replace("*/", "* /")
+        t = self._new_id() + rng.choice(self.COMMENT_TEXTS).replace("*/", "* /")
         if rng.random() < 0.25:
             inner = rng.choice(self.COMMENT_TEXTS).replace("*/", "* /")
             t = t + " /* " + inner.replace("/*", "/ *") + " */ "
         # an unbalanced "/*" inside would open a nested comment
         if t.count("/*") != t.count("*/"):
             t = t.replace("/*", "/ *").replace("*/", "* /")
-        if multiline_ok and rng.random() < 0.3:
+        if multiline_ok and self.multiline_block and rng.random() < 0.3:
             t = t + self.nl + " " + rng.choice(self.COMMENT_TEXTS).replace("*/", "* /").replace("/*", "/ *")
         return "/*" + t + "*/"
 
     def _line_comment(self):
-        return "//" + self.rng.choice(self.COMMENT_TEXTS).replace("\n", " ")
+        return "//" + self._new_id() + self.rng.choice(self.COMMENT_TEXTS).replace("\n", " ")
 
     def _blanks(self, lo=0):
         rng = self.rng
@@ -78,6 +89,16 @@ class Hostile(Layout):
 
     def gap(self, kind, depth, nxt):
         rng = self.rng
+        cls, text = nxt.get("next_cls"), nxt.get("next_text")
+        if cls is None:
+            what = "eof"
+        elif cls in ("punct", "op"):
+            what = text
+        elif cls == "kw":
+            what = str(text).lower()
+        else:
+            what = {"dir": "directive", "mn": "mnemonic"}.get(cls, cls)
+        self._ctx = (kind, nxt.get("stmt") or "?", what)
         if kind == "none":
             return ""
         if kind in ("sp", "opt"):
@@ -94,6 +115,10 @@ class Hostile(Layout):
         if kind == "mopt":
             out = self._blanks(0)
             r = rng.random()
+            if not self.else_comments and (what == "else" or self._after_else):
+                self._after_else = what == "else"
+                return out + (self.nl if r < 0.3 else "") or " "
+            self._after_else = what == "else"
             if r < 0.3:
                 out += self.nl + self._blanks(0)
                 self._note(kind, "newline")
@@ -120,11 +145,11 @@ class Hostile(Layout):
             elif self.comments and r < 0.7:
                 out += self._blanks(0) + self._line_comment() + self.nl
                 self._note(kind, "comment-line")
-            elif self.comments:
+            elif self.comments and self.else_comments:
                 out += self._blanks(0) + self._block_comment(True) + self._blanks(0) + self.nl
                 self._note(kind, "block-comment-line")
         out += rng.choice(["", " ", "  ", "\t", "    " * depth])
-        if self.comments and rng.random() < 0.08:
+        if self.comments and self.else_comments and rng.random() < 0.08:
             out += self._block_comment(False) + " "
             self._note(kind, "leading-block-comment")
         return out
@@ -160,11 +185,12 @@ class Renderer:
         self.items = []
         self.depth = 0
         self.file = None
+        self.stmt_stack = []
         self.occurrences = []     # (file, off0, off1, Def, spelled component index, ncomponents)
 
     # ---- token helpers
     def tok(self, text, cls="punct", begin=(), end=()):
-        self.items.append(["tok", text, list(begin), list(end), cls, self.depth])
+        self.items.append(["tok", text, list(begin), list(end), cls, self.depth, self.stmt_stack[-1] if self.stmt_stack else None])
 
     def gap(self, kind, **kw):
         self.items.append(["gap", kind, kw, self.depth])
@@ -265,6 +291,13 @@ class Renderer:
         self.tok(d.name, "id", begin=[("defb", d)], end=[("defe", d)])
 
     def stmt(self, s):
+        self.stmt_stack.append(s.k)
+        try:
+            self._stmt(s)
+        finally:
+            self.stmt_stack.pop()
+
+    def _stmt(self, s):
         k = s.k
         first = len(self.items)
         if k == "instr":
@@ -482,11 +515,17 @@ class Renderer:
         for i, it in enumerate(items):
             if it[0] == "gap":
                 nxt = dict(it[2])
+                nt = next((x for x in items[i + 1:] if x[0] == "tok"), None)
+                if nt is not None:
+                    t = nt[1]
+                    nxt["next_cls"] = nt[4]
+                    nxt["next_text"] = t if isinstance(t, str) else "<num>"
+                    nxt["stmt"] = nt[6]
                 text = lay.gap(it[1], it[3], nxt)
                 out.append(text)
                 off += len(text.encode("utf8"))
                 continue
-            _, text, begin, end, cls, depth = it
+            _, text, begin, end, cls, depth, _sk = it
             if isinstance(text, tuple):
                 text = lay.number(text[1], text[2])
             else:
